@@ -95,6 +95,9 @@ class C08(MTCheck):
         faults = []
         if be in ("pp", "po") and rng.random() < 0.35:
             faults = ["noeventfd", "noeventfd2"]          # raw events over a pipe
+            if rng.random() < 0.4:
+                # eventfd creation starts failing mid-run: eventfd-backed and pipe-backed kick / raw descriptors side by side (D9)
+                faults.append("efdok=%d" % rng.choice([1, 1, 2, 3]))
         elif be == "et" and rng.random() < 0.2:
             faults = ["nopwait2"]
         loops = [0, 1] if rng.random() < 0.25 else [0]
